@@ -1,44 +1,53 @@
 ---------------------------- MODULE Gen_GovToken ----------------------------
 (* Behaviour generation: simulate GovToken and dump each behaviour's op history as JSON.          *)
-(* TLC's simulator picks uniformly among the successor states, so the mix of calls is set by the  *)
-(* number of argument combinations offered here (same actions as GovToken!Next, fewer redundant   *)
-(* argument combinations of Propose and of the always-refused direct calls).  Before Init nearly  *)
-(* every call is refused, so the start of a behaviour is biased towards Init.                     *)
+(* Same actions as GovToken!Next.  Enumerating every argument combination of every action at      *)
+(* every step (~300 successors) costs ~20 ms per step, so the arguments of each offered call are   *)
+(* drawn with TLC's RandomElement (seeded by -seed, reproducible): ~25 successors per step, the    *)
+(* mix of calls is set by the number of draws per action.  Some draws are aimed (by looking at the *)
+(* generator's own state) at calls that move a proposal, a nomination or a ballot forward; they    *)
+(* are ordinary calls of the same actions.  Before Init nearly every call is refused, so the start *)
+(* of a behaviour is biased towards Init.                                                          *)
 EXTENDS GovToken, Json
+R(S) == RandomElement(S)
 (* At most MaxProps Propose calls per behaviour, whatever their result: the bound must not depend on the
    generator's (IDEAL) state, which may differ from the real one once a known deviation has occurred. *)
 ProposeCalls == Cardinality({i \in DOMAIN hist : hist[i].op = "propose"})
 (* proposal ids worth addressing: the existing ones and one that does not exist (yet) *)
 KnownP == {p \in PIds : p <= st.np + 1}
+Voting == {p \in PIds : p <= st.np /\ st.prop[p].st = "voting"}
+Open   == {p \in PIds : p <= st.np /\ st.prop[p].st \in {"voting", "passed"}}
+Nominated == {c \in Cands : st.nom[c] > 0}
+Ballots == {<<v, c>> \in Acc \X Cands : st.tv[c][v] > 0}
 GNext ==
   /\ Len(hist) < MaxOps
   /\ IF ~st.inited
      THEN \/ \E by \in Acc : InitTokens(by)
           \/ Transfer("a", "b", 500) \/ TNom("a", 500) \/ Vote("b", 1, 0) \/ Tick
-     ELSE \/ InitTokens("c")
-          \/ \E by \in Acc, to \in Acc, amt \in Amounts : Transfer(by, to, amt)
-          \/ \E by \in Acc, lt \in LT : DirectLock(by, by, DirectAmt, lt) \/ DirectUnLock(by, by, DirectAmt, lt)
-          \/ DirectLock("c", "a", DirectAmt, "ordinary") \/ DirectUnLock("b", "a", DirectAmt, "ordinary")
-          \/ \E p \in PIds : DirectCheck("a", p) \/ DirectTrigger("b", p)
+     ELSE \/ \E k \in 1..5 : Transfer(R(Acc), R(Acc), R(Amounts))
+          \/ DirectLock(R(Acc), R(Acc), DirectAmt, R(LT))
+          \/ DirectUnLock(R(Acc), R(Acc), DirectAmt, R(LT))
+          \/ (IF R(1..2) = 1 THEN DirectCheck(R(Acc), R(PIds)) ELSE DirectTrigger(R(Acc), R(PIds)))
           \/ /\ ProposeCalls < MaxProps
-             /\ \/ \E by \in Acc, sd \in StopDeltas, td \in TrigDeltas, pct \in Pcts :
-                      Propose(by, st.h + sd, TrigOf(st.h + sd, td), pct, IF td = 1 THEN "bad" ELSE "ok")
-                \/ Propose("a", st.h + 2, 0, 50, "ok")              \* invalid min_vote_percent
-                \/ Propose("b", st.h + 2, st.h + 1, 51, "ok")       \* trigger height not above stop height
-          \/ \E by \in Acc, p \in KnownP, amt \in Amounts : Vote(by, p, amt)
-          \/ \E by \in Acc, p \in KnownP : Thaw(by, p)
-          \/ \E by \in Acc, amt \in TAmounts : TNom(by, amt)
-          \/ \E by \in Acc : TRevNom(by)
-          \/ \E by \in Acc, cand \in Cands, amt \in TAmounts : TVote(by, cand, amt) \/ TRevoke(by, cand, amt)
+             /\ \/ \E k \in 1..4 : LET sd == R(StopDeltas) td == R(TrigDeltas) IN
+                      Propose(R(Acc), st.h + sd, TrigOf(st.h + sd, td), R(Pcts), R(Toks))
+                \/ (R(1..8) = 1 /\ Propose("a", st.h + 2, 0, 50, "ok"))              \* invalid min_vote_percent
+                \/ (R(1..8) = 1 /\ Propose("b", st.h + 2, st.h + 1, 51, "ok"))       \* trigger height not above stop height
+          \/ \E k \in 1..2 : Vote(R(Acc), R(KnownP), R(Amounts))
+          \/ Thaw(R(Acc), R(KnownP))
+          \/ TNom(R(Acc), R(TAmounts))
+          \/ TRevNom(R(Acc))
+          \/ \E k \in 1..2 : TVote(R(Acc), R(Cands), R(TAmounts))
+          \/ TRevoke(R(Acc), R(Cands), R(TAmounts))
           \/ Tick
-          \* extra weight (the simulator counts duplicate successors) for calls that move a proposal, a nomination
-          \* or a ballot forward; the arguments are chosen by looking at the generator's own state, the calls
-          \* themselves are ordinary calls of the actions above
-          \/ \E k \in 1..6, p \in PIds : p <= st.np /\ st.prop[p].st = "voting" /\ (Vote("a", p, 2500) \/ Vote("b", p, 500) \/ Vote("a", p, 1000))
-          \/ \E k \in 1..3, p \in PIds : p <= st.np /\ st.prop[p].st \in {"voting", "passed"} /\ Tick
-          \/ \E k \in 1..3, by \in Acc, cand \in Cands : st.nom[cand] > 0 /\ TVote(by, cand, 500)
-          \/ \E k \in 1..2, by \in Acc, cand \in Cands : st.tv[cand][by] > 0 /\ TRevoke(by, cand, st.tv[cand][by])
-          \/ \E by \in Acc : st.nom[by] > 0 /\ TRevNom(by)
+          \/ (R(1..6) = 1 /\ InitTokens(R(Acc)))
+          \* aimed draws
+          \/ (Voting # {} /\ \E k \in 1..6 : Vote(R({"a", "b"}), R(Voting), R({500, 1000, 2500})))
+          \/ (Voting # {} /\ R(1..4) = 1 /\ LET p == R(Voting) IN Thaw(st.prop[p].by, p))
+          \/ (Open # {} /\ \E k \in 1..3 : Tick)
+          \/ (Nominated # {} /\ \E k \in 1..2 : TVote(R(Acc), R(Nominated), R({500, 1000})))
+          \/ (Nominated # {} /\ R(1..3) = 1 /\ TRevNom(R(Nominated)))
+          \/ (Ballots # {} /\ LET b == R(Ballots) v == st.tv[b[2]][b[1]] IN TRevoke(b[1], b[2], R({500, v, v, v + 500})))
+          \/ (Nominated # {} /\ R(1..3) = 1 /\ TNom(R(Nominated), 500))           \* nominated twice
 GSpec == Init /\ [][GNext]_vars
 Dump == Len(hist) < MaxOps \/ (JsonSerialize("out/b_" \o ToString(TLCGet("stats").traces) \o ".json", hist) /\ FALSE)
 =============================================================================
